@@ -190,7 +190,8 @@ pub fn build_tree(g: u64, stem_len: usize, shape: &[usize], invalid_leaf: Option
     let mut tb: Vec<usize> = vec![];
     for (i, &p) in shape.iter().enumerate() {
         let parent = if p == 0 { *stem.last().unwrap() } else { tb[p - 1] };
-        let b = w.honest_child(parent, (i + 1) as u64, &format!("T{}", i + 1))?;
+        // tree blocks spend the payer's newest output: a block of a branch spends what its parent created
+        let b = w.honest_child_with(parent, (i + 1) as u64, &format!("T{}", i + 1), true)?;
         tb.push(b);
     }
     let mut invalid = None;
@@ -322,8 +323,20 @@ pub fn main(tier: Tier, replay: Option<String>) -> i32 {
             }
         }
     }
-    let perms = permutations(n);
+    // quick: in addition the five-block trees with a two-block branch overtaken by a three-block
+    // branch (the smallest reorganisations that unwind two blocks), every delivery order
+    if !tier.thorough {
+        for (g, stem) in configs.iter() {
+            for s in [vec![0usize, 1, 0, 3, 4], vec![0, 0, 1, 2, 4]] {
+                jobs.push((*g, *stem, s.clone(), None));
+                jobs.push((*g, *stem, s.clone(), Some(4)));
+            }
+        }
+    }
+    let perms_n = permutations(n);
+    let perms_5 = permutations(5);
     let results = par_map(&jobs, workers(), |_, (g, stem, shape, inv)| {
+        let perms = if shape.len() == 5 { &perms_5 } else { &perms_n };
         let mut r = Report::new("C03", tier.clone(), "model_checking");
         let mut seen: BTreeSet<Hash> = BTreeSet::new();
         let tw = match build_tree(*g, *stem, shape, *inv) {
